@@ -739,6 +739,58 @@ def _auth_header(c):
     return {'Authorization': 'Basic ' + base64.b64encode(('%s:%s' % p).encode()).decode()}
 
 
+DECOYS = ['hub-sig256-empty-key', 'hub-sig-empty-key', 'hub-sig256-password', 'hub-sig1-empty-key', 'hub-sig256-secret',
+          'gitlab-token-empty', 'gitlab-token-password', 'forwarded-user', 'event-signature', 'x-api-key']
+
+
+def _decoy_headers(c, data):
+    """Headers that mean nothing to the server (it authenticates webhooks by basic auth only): signatures of the exact
+    body under keys anybody can guess, tokens of other hosts' webhook schemes, a user name asserted by a proxy."""
+    import hashlib
+    import hmac
+    d = c.get('decoy')
+    if not d:
+        return {}
+    body = data.encode() if isinstance(data, str) else data
+
+    def sig(key, algo='sha256'):
+        return '%s=%s' % (algo, hmac.new(key, body, getattr(hashlib, algo)).hexdigest())
+    return {
+        'hub-sig256-empty-key': {'X-Hub-Signature-256': sig(b'')},
+        'hub-sig-empty-key': {'X-Hub-Signature': sig(b'')},
+        'hub-sig256-password': {'X-Hub-Signature-256': sig(WEBHOOK_PWD.encode())},
+        'hub-sig1-empty-key': {'X-Hub-Signature': sig(b'', 'sha1')},
+        'hub-sig256-secret': {'X-Hub-Signature-256': sig(b'secret')},
+        'gitlab-token-empty': {'X-Gitlab-Token': ''},
+        'gitlab-token-password': {'X-Gitlab-Token': WEBHOOK_PWD},
+        'forwarded-user': {'X-Forwarded-User': WEBHOOK_LOGIN, 'Remote-User': WEBHOOK_LOGIN},
+        'event-signature': {'X-Event-Signature': sig(b''), 'X-Signature': sig(b'')},
+        'x-api-key': {'X-Api-Key': '', 'X-Hook-UUID': '00000000-0000-0000-0000-000000000000'},
+    }[d]
+
+
+def decoy_probe(quick):
+    """Every webhook cell that carries a well-formed payload, sent without the configured credentials, once more with
+    each decoy: status and enqueued job must be what they are without it (nothing enqueued)."""
+    n, diffs = 0, []
+    for gen, impl in ((bb_cells, impl_bb), (gh_cells, impl_gh)):
+        seen = set()
+        for c in gen():
+            if c['payload'] != 'ok' or c['method'] != 'POST' or c['creds'] == 'right' or c['repo_class'] != 'match':
+                continue
+            key = (c['host'], c.get('event_key'), c.get('event'), c.get('action'), c['creds'])
+            if quick and (c['creds'] not in ('none', 'wrong-password') or key in seen):
+                continue
+            seen.add(key)
+            base = impl(c['host'], c)
+            for d in DECOYS:
+                got = impl(c['host'], dict(c, decoy=d))
+                n += 1
+                if got != base or got[1] is not None:
+                    diffs.append((dict(c, decoy=d), base, got))
+    return n, diffs
+
+
 def _clear_caches():
     from bert_e.git_host.cache import BUILD_STATUS_CACHE
     BUILD_STATUS_CACHE.clear()
@@ -764,6 +816,7 @@ def impl_bb(host, c):
         data = json.dumps(p)
     else:
         data = {'notjson': '{not json', 'list': '[1]'}[c['payload']]
+    headers.update(_decoy_headers(c, data))
     resp = app.test_client().open('/bitbucket', method=c['method'], data=data, headers=headers)
     return _result(bert_e, resp)
 
@@ -799,6 +852,7 @@ def impl_gh(host, c):
         data = json.dumps(p)
     else:
         data = {'notjson': '{not json', 'list': '[1]'}[c['payload']]
+    headers.update(_decoy_headers(c, data))
     resp = app.test_client().open('/github', method=c['method'], data=data, headers=headers)
     return _result(bert_e, resp)
 
@@ -1403,6 +1457,17 @@ def run(ctx, cells=None):
                 ctx.violation(inp, want, got, 'a job created while another request to the same endpoint was being served '
                               'does not carry exactly the validated parameters of its own request',
                               key=core.canon({'what': 'overlap', 'rule': inp['rule'], 'method': inp['method']}))
+        # webhooks without the configured credentials plus headers the server gives no meaning to
+        n, diffs = decoy_probe(ctx.quick)
+        ctx.evaluations += n
+        ctx.count('decoy_header_probe', n)
+        for c, base, got in diffs[:20]:
+            ctx.violation({'cell': {k: (list(v) if isinstance(v, tuple) else v) for k, v in c.items()},
+                           'headers': sorted(_decoy_headers(c, '{}'))},
+                          {'status': base[0], 'enqueued': base[1]}, {'status': got[0], 'enqueued': got[1]},
+                          'a webhook without the configured basic-auth credentials is treated differently (accepted / '
+                          'a job enqueued) because of an additional header',
+                          key=core.canon({'what': 'decoy header', 'decoy': c['decoy'], 'route': c['kind']}))
         # the same webhooks while the worker is busy with / has finished an equal job: nothing may change
         n, diffs = webhook_busy_probe()
         ctx.evaluations += n
